@@ -172,40 +172,24 @@ func cmpOfName(name string) gkvlite.KeyCompare {
 }
 
 func errClass(err error) string {
+	// Which error a refused call returns is specified nowhere (and its wording even less): every
+	// error is observed as "err", except the three the properties speak about - an injected I/O
+	// fault (by identity), an unexpected end of file (by identity) and the documented "couldn't
+	// find roots" of an open that finds no root record.  The model's answers err-ro / err-arg /
+	// err-nofile / err-name are printed as "err" by the driver (lean/Main.lean).
 	if err == nil {
 		return "ok"
 	}
 	m := err.Error()
 	switch {
-	case strings.Contains(m, "read only") || strings.Contains(m, "readonly"):
-		return "err-ro"
-	case strings.Contains(m, "Item.Key/Val missing") || strings.Contains(m, "Item.Priority must be"):
-		return "err-arg"
-	case strings.Contains(m, "no file / in-memory"):
-		return "err-nofile"
-	case strings.Contains(m, "is not valid UTF-8"):
-		return "err-name"
-	case strings.Contains(m, "couldn't find roots"):
-		return "noroots"
 	case err == memfile.ErrInjected || strings.Contains(m, "injected I/O error"):
 		return "err-io"
 	case err == io.EOF || err == io.ErrUnexpectedEOF:
 		return "err-eof"
+	case strings.Contains(m, "couldn't find roots"):
+		return "noroots"
 	}
-	// other messages: keep a printable ASCII prefix only (some embed raw key bytes)
-	var b strings.Builder
-	for i := 0; i < len(m) && b.Len() < 48; i++ {
-		c := m[i]
-		switch {
-		case c == ' ':
-			b.WriteByte('_')
-		case c > 32 && c < 127:
-			b.WriteByte(c)
-		default:
-			b.WriteByte('?')
-		}
-	}
-	return "err:" + b.String()
+	return "err"
 }
 
 func showItem(i *gkvlite.Item, wv bool) string {
